@@ -320,6 +320,10 @@ def run_unit(ctx, u):
                 "(B,b*n)": (torch.stack([torch.cat(pool[0:2]), torch.cat(pool[2:4]), torch.cat(pool[4:6])]), torch.stack([torch.cat(refs[0:2]), torch.cat(refs[2:4]), torch.cat(refs[4:6])])),
                 "1-D,b*n": (torch.cat(pool[0:3]), torch.cat(refs[0:3])),
             }
+            # the same values in a non-contiguous tensor (every second column of a wider one) and in an expanded view
+            wide = torch.stack([torch.stack([x, x.flip(0)], dim=-1).reshape(-1) for x in pool[0:3]])  # (3, 2n)
+            lays["(B,n),strided view"] = (wide[:, ::2], torch.stack(refs[0:3]))
+            lays["(B,n),expanded"] = (pool[0].unsqueeze(0).expand(3, -1), torch.stack([refs[0]] * 3))
             for lname, (X, exp) in lays.items():
                 ctx.case(name, label, "layout", lname)
                 try:
@@ -346,6 +350,24 @@ def run_unit(ctx, u):
                 later = f2(torch.stack(pool[:2]))
             a1, a2, first, later = [t[0] if isinstance(t, tuple) else t for t in (a1, a2, first, later)]
             ok = close(a1, a2, True) and close(first, later, True) and close(first, a1, exact)
+            if isinstance(f, torch.nn.Module):
+                # a deep copy of the used object, and the object after a state_dict round trip, answer alike
+                import copy
+
+                try:
+                    with contextlib.redirect_stdout(io.StringIO()):
+                        fc = copy.deepcopy(f)
+                        sd = copy.deepcopy(f.state_dict())
+                except Exception as e:  # noqa: BLE001 - copyability itself is not part of the property
+                    ctx.skip(f"object cannot be deep-copied ({type(e).__name__})")
+                    fc = None
+                if fc is not None:
+                    with contextlib.redirect_stdout(io.StringIO()):
+                        c1 = fc(torch.stack(pool[:2]))
+                        f.load_state_dict(sd)
+                        c2 = f(torch.stack(pool[:2]))
+                    c1, c2 = [t[0] if isinstance(t, tuple) else t for t in (c1, c2)]
+                    ok = ok and close(c1, a1, True) and close(c2, a1, True)
             ctx.case(name, label, "history")
             ctx.check(ok, "repeatable", f"{cls}|{label}|repeatable|f(x) differs between calls / objects", component=name)
         except Exception as e:  # noqa: BLE001
